@@ -832,6 +832,76 @@ theorem C16_order_struct_written (eq : Pt α → Pt α → Bool) (zero : α) (e 
       exact hr r0 hr0)
     exact ⟨rows, h1, by simpa [hfile] using h2⟩
 
+/-! ### writer schedules: `Encode` and `EncodeFields` mixed on one encoder -/
+
+theorem modify_append_last {β : Type} (l : List β) (a : β) (f : β → β) : (l ++ [a]).modify l.length f = l ++ [f a] := by
+  induction l with
+  | nil => simp [List.modify]
+  | cons x xs ih => simp [List.modify_succ_cons, ih]
+
+/-- the rows a writer schedule must produce: record `i`'s shape with the cells ITS method writes -/
+def expMix (e : EncS) (sched : List Bool) (S : Geom α → Shape α) : List (Geom α × List Val) → Nat → List (Shape α × List Bytes)
+  | [], _ => []
+  | r :: rest, i =>
+    (S r.1, if (sched[i % sched.length]?).getD true then (writeStrict e.fields r.2).1 else writeLenient e.fields r.2)
+      :: expMix e sched S rest (i + 1)
+
+theorem expMix_length (e : EncS) (sched : List Bool) (S : Geom α → Shape α) :
+    ∀ (recs : List (Geom α × List Val)) (i : Nat), (expMix e sched S recs i).length = recs.length
+  | [], _ => rfl
+  | _ :: rest, i => by simp [expMix, expMix_length e sched S rest (i + 1)]
+
+theorem writeAllMix_go_rows (eq : Pt α → Pt α → Bool) (e : EncS) (sched : List Bool) (S : Geom α → Shape α) :
+    ∀ (rest : List (Geom α × List Val)) (i : Nat) (st : WState α) (res : List WRes),
+      st.row = st.rows.length →
+      (∀ r ∈ rest, fieldShape eq e.geomKind r.1 = .ok (S r.1) ∧ r.2.length ≤ e.fields.length) →
+      (writeAllMix.go eq e sched rest i st res).1 = st.rows ++ expMix e sched S rest i := by
+  intro rest
+  induction rest with
+  | nil => intro i st res _ _; simp [writeAllMix.go, expMix]
+  | cons r rest ih =>
+    intro i st res hrow h
+    obtain ⟨hs, hl⟩ := h r (by simp)
+    have hnot : ¬ r.2.length > e.fields.length := by omega
+    rw [writeAllMix.go]
+    cases hm : (sched[i % sched.length]?).getD true with
+    | true =>
+      have hst : (encodeMix eq e st true r.1 r.2).1 =
+          ⟨st.rows ++ [(S r.1, (writeStrict e.fields r.2).1)], st.rows.length + 1⟩ := by
+        simp [encodeMix, hs, setCells, hrow, modify_append_last]
+      rw [ih (i + 1) _ _ (by rw [hst]; simp) (fun r' hr' => h r' (by simp [hr']))]
+      rw [hst]
+      simp [expMix, hm]
+    | false =>
+      have hst : (encodeMix eq e st false r.1 r.2).1 =
+          ⟨st.rows ++ [(S r.1, writeLenient e.fields r.2)], st.rows.length + 1⟩ := by
+        simp [encodeMix, hs, setCells, hrow, modify_append_last, hnot]
+      rw [ih (i + 1) _ _ (by rw [hst]; simp) (fun r' hr' => h r' (by simp [hr']))]
+      rw [hst]
+      simp [expMix, hm]
+
+/-- **C16_order_mixed_written** (clause "come back in the same order and number", any WRITER schedule on one
+`NewEncoder` encoder): whatever mix of `Encode` and `EncodeFields` calls writes the records, record `i` is
+row `i` — its shape with the cells its own call wrote — because both methods share the one row cursor
+`e.row`, which advances once per written record. Composed with `C16_order_struct`: `n` `DecodeRow` calls
+return `n` rows in order. -/
+theorem C16_order_mixed_written (eq : Pt α → Pt α → Bool) (zero : α) (e : EncS) (sched : List Bool)
+    (recs : List (Geom α × List Val)) (S : Geom α → Shape α) (G : Shape α → Geom α) (sfs : List SField) (reuse : Bool)
+    (hw : ∀ r ∈ recs, fieldShape eq e.geomKind r.1 = .ok (S r.1) ∧ r.2.length ≤ e.fields.length)
+    (hr : ∀ r ∈ expMix e sched S recs 0, shp2Geom r.1 = .ok (G r.1) ∧ CallOK zero (fileKeys e.fields) G (.s sfs reuse) r) :
+    (writeAllMix eq e sched recs).1 = expMix e sched S recs 0 ∧
+    ∃ rows, readS zero ⟨e.shpType, e.fields, (writeAllMix eq e sched recs).1⟩ sfs reuse = ⟨rows, false, false⟩ ∧
+      rows.length = recs.length := by
+  have hrows : (writeAllMix eq e sched recs).1 = expMix e sched S recs 0 := by
+    have := writeAllMix_go_rows eq e sched S recs 0 ⟨[], 0⟩ [] rfl hw
+    simpa [writeAllMix] using this
+  refine ⟨hrows, ?_⟩
+  obtain ⟨rows, h1, h2, _⟩ := C16_order_struct zero ⟨e.shpType, e.fields, (writeAllMix eq e sched recs).1⟩ sfs reuse G (by
+    intro r hrm
+    simp only [hrows] at hrm
+    exact hr r hrm)
+  exact ⟨rows, h1, by simpa [hrows, expMix_length] using h2⟩
+
 /-- the values `DecodeRow` leaves in the record are, field by field, what `decodeField` computes from the
 row's own cells -/
 theorem decodeFields_getElem (zero : α) (keys : List Bytes) (g : Geom α) (cells : List Bytes) :
